@@ -1,7 +1,6 @@
 // Declared environment of the stylesheet-scanner slice. AST payload types carry no
 // facts the cursor arguments need: `Interpolation` keeps its real field (the real
 // text pushes into it) but its methods are external_body; expressions are opaque.
-pub struct AstExpr { }
 pub struct Spanned<T> { pub node: T, pub span: Span }
 pub enum InterpolationPart { Expr(Spanned<AstExpr>), String(String) }
 pub struct Interpolation { pub contents: Vec<InterpolationPart> }
